@@ -54,9 +54,9 @@ KSYNC_IR2C = ['--thread', '^@thread_entry_',
     '--blockingc', r'^@_ZN6photon12thread_yieldEv$=K_yield_begin,K_yield_end',
     '--blockingc', r'^@_ZN6photon13thread_usleepENS_7TimeoutE$=K_usleep_begin,K_usleep_end']
 
-def ksjob(name, src, nt, slices, defines, timeout=900, desc='', unwind=4, mem_gb=12, shims=(), preempt=False, stuck_legal=False):
+def ksjob(name, src, nt, slices, defines, timeout=900, desc='', unwind=4, mem_gb=12, shims=(), preempt=False, stuck_legal=False, extra_ir2c=()):
     return Job(name, src, 'sched', roots=KROOTS, defines=['NT=%d' % nt, 'KN=%d' % nt] + defines, clang=['-mllvm', '-inline-threshold=100000000'],
-               ir2c=KSYNC_IR2C + (['--cs-atomic-only'] if preempt else ['--cs-none']), shims=['libc.c', 'sched.c'] + list(shims),
+               ir2c=KSYNC_IR2C + list(extra_ir2c) + (['--cs-atomic-only'] if preempt else ['--cs-none']), shims=['libc.c', 'sched.c'] + list(shims),
                cbmc=['-DNT=%d' % nt, '-DSLICES=%d' % slices] + (['-DVERIF_STUCK_IS_LEGAL'] if stuck_legal else []), unwind=max(unwind, nt + 1),
                unwindset=['f_sched.1:%d' % (slices + 1)], timeout=timeout, mem_gb=mem_gb, desc=desc,
                bounds='%d threads, <= %d execution slices, mutex/cv/semaphore as contracts (rt/ksync.h), %s' % (nt, slices, 'pre-emption at atomic operations' if preempt else 'switch at blocking calls'))
